@@ -141,9 +141,11 @@ def _invariant_loop(X, st, fr, ls, forinfo):
             fr_.vars[name] = T.from_leaves(T.to_leaves(v))
 
     idx0 = z3.IntVal(0)
+    ghostvals = {}
     seq = item = live = None
     if is_for:
         seq, item, live = forinfo
+        X.named_ghosts[ls.seq] = seq
     live_before = deref(live) if live is not None else None
 
     def env_for(idx):
@@ -158,7 +160,13 @@ def _invariant_loop(X, st, fr, ls, forinfo):
         if is_for:
             env[ls.index] = ZV(idx)
             env[ls.seq] = seq
-        for gname, g in X.loop_ghost.get((fname, k), {}).items():
+            eidx = getattr(seq, 'enum_idx', None)
+            if eidx is not None:
+                from .exec import Builtin
+                from .sym import coerce_term
+                env['pos'] = Builtin('pos', lambda X_, a, k, n, eidx=eidx: ZV(
+                    eidx(coerce_term(a[0], eidx.domain(0)))))
+        for gname, g in ghostvals.items():
             env[gname] = g
         return env
 
@@ -172,8 +180,13 @@ def _invariant_loop(X, st, fr, ls, forinfo):
     # ---- initiation
     if is_for:
         X.assume(seq.n >= 0)
+    for gname, (GT, ginit, gstep) in ls.ghost.items():
+        ghostvals[gname] = spec.eval_spec(X, ginit, env_for(idx0), fr.module)
+        X.named_ghosts[gname] = ghostvals[gname]
+    from .spec import oblige_split
     for name, role, f in inv_formulas(idx0):
-        X.oblige('%s:loop%d.init.%s' % (fname, k, name), f, kind='loop-init', role=role)
+        oblige_split(X, '%s:loop%d.init.%s' % (fname, k, name), f, 'loop-init', role,
+                     assume_after=True)
 
     which = X.choose([True, True])
 
@@ -207,6 +220,9 @@ def _invariant_loop(X, st, fr, ls, forinfo):
             spec.havoc_target(X, h, env_for(idx0))
     changed_by_havoc = {key for key in X.heap if key not in snap_heap
                         or any(not a.eq(b) for a, b in zip(X.heap[key], snap_heap[key]))}
+    for gname, (GT, ginit, gstep) in ls.ghost.items():
+        ghostvals[gname] = X.fresh(GT, 'lg_' + gname)
+        X.named_ghosts[gname] = ghostvals[gname]
     idx = idx0
     if is_for:
         idx = z3.Int(X.fresh_name('it'))
@@ -249,8 +265,10 @@ def _invariant_loop(X, st, fr, ls, forinfo):
         X.oblige('%s:loop%d.non-interference' % (fname, k), X._z(eqf),
                  kind='loop-non-interference', role='prop')
     nidx = idx + 1 if is_for else idx
+    for gname, (GT, ginit, gstep) in ls.ghost.items():
+        ghostvals[gname] = spec.eval_spec(X, gstep, env_for(idx), fr.module)
     for name, role, f in inv_formulas(nidx):
-        X.oblige('%s:loop%d.preserve.%s' % (fname, k, name), f, kind='loop-preserve', role=role)
+        oblige_split(X, '%s:loop%d.preserve.%s' % (fname, k, name), f, 'loop-preserve', role)
     if dec0 is not None:
         dec1 = X.num(spec.eval_spec(X, ls.decreases, env_for(nidx), fr.module))
         X.oblige('%s:loop%d.decreases' % (fname, k), z3.And(dec0 >= 0, dec1 < dec0),
